@@ -380,6 +380,13 @@ func TestC15(t *testing.T) {
 		panics = append(panics, w.panics...)
 	}
 
+	// ---- corpus: D-C15-1 witness — the unwrapped surplus kick-off of liquidationsV2.BeginBlocker (c15_kick_test.go) ----------------
+	{
+		w0 := &c15World{t: t, tr: tr}
+		c15KickCampaign(w0)
+		panics = append(panics, w0.panics...)
+	}
+
 	// ---- per-app granularity of the liquidity hooks: multi-app worlds, natural poison and injected faults per app ---------
 	{
 		w0 := &c15World{t: t, tr: tr}
